@@ -866,6 +866,42 @@ class Engine:
             a, b = args
             return R({'wrapping_sub': a - b, 'wrapping_add': a + b, 'wrapping_mul': a * b,
                       'saturating_sub': z3.If(z3.ULT(a, b), BV(0, a.size()), a - b)}[m.group(2)])
+        m = re.match(r'^core::num::<impl (u8|u16|u32|u64|usize)>::(checked_add|checked_sub|checked_mul)$', c)
+        if m:
+            a, b = args
+            res, ovf = {'checked_add': (a + b, z3.Not(z3.BVAddNoOverflow(a, b, False))),
+                        'checked_sub': (a - b, z3.ULT(a, b)),
+                        'checked_mul': (a * b, z3.Not(z3.BVMulNoOverflow(a, b, False)))}[m.group(2)]
+            return forks([(ovf, lambda st2: ('ret', mk_enum('Option', 'None'), st2)),
+                          (z3.Not(ovf), lambda st2: ('ret', mk_enum('Option', 'Some', [res]), st2))])
+        m = re.match(r'^core::num::<impl (u8|u16|u32|u64|usize)>::(saturating_add|wrapping_neg|min|max)$', c)
+        if m and m.group(2) == 'saturating_add':
+            a, b = args
+            return R(z3.If(z3.BVAddNoOverflow(a, b, False), a + b, BV(2 ** a.size() - 1, a.size())))
+        if c in ('core::cmp::max::<usize>', '<usize as Ord>::max', 'core::cmp::max::<u32>', '<u32 as Ord>::max'):
+            a, b = args
+            return R(z3.If(z3.UGE(a, b), a, b))
+        if c in ('core::cmp::min::<u32>', '<u32 as Ord>::min'):
+            a, b = args
+            return R(z3.If(z3.ULE(a, b), a, b))
+        if re.match(r'^Option::<.*>::(is_some|is_none)$', c) and isinstance(args[0], LRef):
+            o = s.deref_local(st, args[0])
+            if isinstance(o, Enum) and isinstance(o.disc, str):
+                return R(BV(int((o.disc == 'Some') == c.endswith('is_some')), 1))
+        if re.match(r'^Option::<.*>::unwrap_or$', c) and isinstance(args[0], Enum) and isinstance(args[0].disc, str):
+            return R(args[0].payload['Some'][0] if args[0].disc == 'Some' else args[1])
+        if re.match(r'^core::slice::<impl \[.*\]>::is_empty$', c):
+            return R(b2(args[0].meta == 0))
+        m = re.match(r'^<\[(\w+)\] as Index<.*Range(From|To)<usize>>>::index$', c) or re.match(r'^core::slice::<impl \[(\w+)\]>::get::<.*Range(From|To)<usize>>$', c)
+        if m and isinstance(args[0], Fat):
+            sl, rg = args
+            x = rg.fields[0]
+            esz = BV(s.size(m.group(1), sub), 64)
+            ok = z3.ULE(x, sl.meta)
+            val = Fat(sl.addr + x * esz, sl.meta - x) if m.group(2) == 'From' else Fat(sl.addr, x)
+            if 'get::<' in c:
+                return forks([(z3.Not(ok), lambda st2: ('ret', mk_enum('Option', 'None'), st2)), (ok, lambda st2: ('ret', mk_enum('Option', 'Some', [val]), st2))])
+            return forks([(z3.Not(ok), lambda st2: ('panic', 'slice index out of range @' + short(caller.name if caller else ''), st2)), (ok, lambda st2: ('ret', val, st2))])
         if c == 'core::cmp::min::<usize>' or c == '<usize as Ord>::min':
             a, b = args
             return R(z3.If(z3.ULE(a, b), a, b))
